@@ -64,7 +64,7 @@ var srcC13 = []*g2lTarget{
 		params: "(cert : x509.Certificate)", ret: "Option GoLite.Err", retOpt: []bool{true},
 	},
 	{
-		file: c13TS, recv: "x509TrustStore", fn: "GetCertificates", leanName: "x509TrustStore.GetCertificates",
+		file: c13TS, recv: "x509TrustStore", fn: "GetCertificates", recvName: "trustStore", leanName: "x509TrustStore.GetCertificates",
 		params:  "(trustStore : x509TrustStore) (w : World) (_ctx : Unit) (storeType : «Type») (namedStore : String)",
 		ret:     "List x509.Certificate × Option GoLite.Err",
 		retOpt:  []bool{false, true},
